@@ -1,5 +1,6 @@
 """C07 — vulnerability detectors report every canonical instance and no non-instance (DESIGN 5/C07, section 8.3)."""
 from runner import Ob
+from rules import depend
 import summary
 from rules import detectors as D
 from rules import speccmp
@@ -16,12 +17,16 @@ META = {
                    "base(step|step)*) are compared with DESIGN section 8.3 in specs/detectors.spec. For unprotected_selfdestruct this covers the visibility filter, the "
                    "'only' modifier test, the constructor skip and the protective-call scan including its skip set (selfdestruct/suicide callee, type-conversion callee).",
     "assumptions": ["specs/detectors.spec (DESIGN section 8.3) is the oracle", "str::contains semantics (std)"],
-    "floors": {"R07.must": 5, "R07.mustnot": 5},
+    "floors": {"R07.walker": 1, "R07.must": 5, "R07.mustnot": 5},
 }
 
 
 def run(ctx, crate):
     obs = []
+    # occurrences count wherever they are nested: inherited from C01 (the search reaches every syntactic position)
+    obs.append(depend.inherited(ctx, crate, "R07.walker", "analyzer::ast::walk_node_for_targets", "the search reaches every nested position (C01's obligations on the walker)",
+                                "C01", lambda o: o.rule in ("R01.children", "R01.order", "R01.once", "R01.uncond", "R01.preorder", "R01.loops", "R01.entry"),
+                                example="the pattern inside !( .. ) or inside a catch body"))
     spec = speccmp.load_spec()
     sm = summary.Summ(crate)
     d = D.Dispatch(crate, "vulnerabilities")
